@@ -82,7 +82,7 @@ def make(tier):
     uq = P.unit('buf', 'buf.cpp', specs=['c07b.spec'], inline=True, maxb=8, defines=['VF_ELEM=unsigned char'])
     for f, (req, ens, what) in B.items():
         uq.contract(f, cls='B', unwind=10, bound='container::buffer<unsigned char> with capacity <= 4 (every well-formed read/write split, symbolic contents), requests of at most 3 elements; memmove/memcpy with symbolic size = byte-loop model of at most 8 bytes',
-                    backends=['sat', 'cvc5'], timeout=1200, native=False, what='buffer: ' + what, cbmc=['--memory-leak-check'])
+                    backends=['sat', 'cvc5'], timeout=1200, what='buffer: ' + what, cbmc=['--memory-leak-check'])
     HEAVY = lambda f: f.startswith('vf_rv_insert') or f.startswith('vf_rv_resize')
     u = P.unit('rv', 'shim.cpp', specs=['c07.spec'], inline=True, maxb=32)
     ub = P.unit('rvb', 'shim.cpp', specs=['c07.spec'], inline=True, maxb=8, defines=['VF_ELEM=unsigned char'])
@@ -90,8 +90,8 @@ def make(tier):
         capmax = 4
         if HEAVY(f):
             ub.contract(f, name=f + '_u8', cls='B', unwind=10, bound='raw_vector<unsigned char> with capacity <= %d (all sizes, symbolic contents, every valid position/count); memmove/memcpy with symbolic size = byte-loop model of at most 8 bytes (element-exact for 1-byte elements)' % capmax,
-                        backends=['sat', 'cvc5'], timeout=1200, native=False, what='raw_vector: ' + what, cbmc=['--memory-leak-check'])
+                        backends=['sat', 'cvc5'], timeout=1200, what='raw_vector: ' + what, cbmc=['--memory-leak-check'])
         else:
             u.contract(f, cls='B', unwind=34, bound='raw_vector<int> with capacity <= %d (all sizes, symbolic contents, every valid position/count); memmove/memcpy with symbolic size = byte-loop model of at most 32 bytes' % capmax,
-                       backends=['sat', 'cvc5'], timeout=1200, native=False, what='raw_vector: ' + what, cbmc=['--memory-leak-check'])
+                       backends=['sat', 'cvc5'], timeout=1200, what='raw_vector: ' + what, cbmc=['--memory-leak-check'])
     return P
